@@ -67,17 +67,20 @@ Definition case_ok (c : case) : bool :=
       let r := verify_header st h in
       rcode_eqb (code_of r) code && peers_eqb (st_peers (apply_verify st r)) pa
   | CAdd st h code tip pa indexed =>
+      (* [indexed]: the header returned for h's height has h's hash (a refused variant of an
+         already indexed header has the same hash: Header.Hash() covers the unsigned fields only) *)
+      let indexed_in s :=
+        match header_at s (h_height h) with Some x => h_hash x =? h_hash h | None => false end in
       match add_header st h with
       | AddOk st' =>
           rcode_eqb code KOk && (st_tip st' =? tip) && peers_eqb (st_peers st') pa
-          && bool_eqb indexed
-               (match header_at st' (h_height h) with Some x => h_hash x =? h_hash h | None => false end)
+          && bool_eqb indexed (indexed_in st')
       | AddWrongHeight =>
           rcode_eqb code KWrongNextHeight && (st_tip st =? tip) && peers_eqb (st_peers st) pa
-          && negb indexed
+          && bool_eqb indexed (indexed_in st)
       | AddRejected e =>
           rcode_eqb (code_of e) code && negb (rcode_eqb code KOk) && (st_tip st =? tip)
-          && peers_eqb (st_peers st) pa && negb indexed
+          && peers_eqb (st_peers st) pa && bool_eqb indexed (indexed_in st)
       end
   | CVms msg keys m sigs code => rcode_eqb (code_of_vms (verify_multi msg keys m sigs)) code
   | CClass st h stale thr dup ow gov =>
